@@ -571,6 +571,59 @@ pub fn drive(spec: &CheckSpec, tier: &str) -> i32 {
 }
 
 /// Write a worker's result file.
+/// Minimise a recorded schedule (list of scheduler choices; choice 0 = "first runnable thread"):
+/// first the shortest prefix after which every choice may be 0, then blocks inside that prefix are
+/// zeroed while the same violation persists. The result replays to the same violation with fewer
+/// arbitrary decisions. `fails` re-runs a candidate and says whether the violation is still there.
+pub fn minimise_choices(choices: &[u32], mut fails: impl FnMut(&[u32]) -> bool, max_trials: usize) -> Vec<u32> {
+	let mut trials = 0;
+	let mut best: Vec<u32> = choices.to_vec();
+	// 1. shortest failing prefix (binary search; not monotone in general, so the result is re-checked)
+	let (mut lo, mut hi) = (0usize, best.len());
+	while lo < hi && trials < max_trials / 2 {
+		let mid = (lo + hi) / 2;
+		trials += 1;
+		if fails(&best[..mid]) {
+			hi = mid;
+		} else {
+			lo = mid + 1;
+		}
+	}
+	if hi < best.len() {
+		trials += 1;
+		if fails(&best[..hi]) {
+			best.truncate(hi);
+		}
+	}
+	// 2. zero blocks of decreasing size
+	let mut block = (best.len() / 4).max(1);
+	while block >= 1 && trials < max_trials {
+		let mut start = 0;
+		while start < best.len() && trials < max_trials {
+			let end = (start + block).min(best.len());
+			if best[start..end].iter().any(|c| *c != 0) {
+				let mut cand = best.clone();
+				for c in cand[start..end].iter_mut() {
+					*c = 0;
+				}
+				trials += 1;
+				if fails(&cand) {
+					best = cand;
+				}
+			}
+			start = end;
+		}
+		if block == 1 {
+			break;
+		}
+		block /= 2;
+	}
+	while best.last() == Some(&0) {
+		best.pop();
+	}
+	best
+}
+
 pub fn write_case_result(out: &str, r: &CaseResult) {
 	let tmp = format!("{}.tmp", out);
 	std::fs::write(&tmp, serde_json::to_string(&r.to_json()).unwrap()).expect("write result");
